@@ -94,6 +94,8 @@ ExpandStrings(h) ==
                   \cup { <<0, Cmp(o, C2("indexof", HS, p), IntL(k))>> : o \in {"eq", "lt"}, k \in {0, 1}, p \in {SL(<<98>>), SL(<<37>>), uC} }
                   \cup { <<0, Cmp("in", HS, Lst(<<SL(<<97>>), SL(<<111, Q, 114>>), SL(<<37>>)>>))>> }
                   \cup { <<0, Cmp(o, C1("toupper", HS), SL(<<65, 66>>))>> : o \in {"eq", "ne", "lt"} }
+                  \* a string predicate in a negated position (an unknown stays unknown, a shortcut to TRUE / FALSE shows)
+                  \cup { <<1, Un("not", HB)>>, <<1, Cmp("eq", HB, BoolL("false"))>> }
     [] h = "S" -> { <<0, x>> : x \in {sC, uC, SL(<<97>>), SL(<<37>>)} }
                   \cup { <<1, C2("concat", HS, HS)>>, <<1, C1("tolower", HS)>>, <<1, C1("trim", HS)>> }
                   \* left- and right-nested concatenation with a separator (order and grouping both matter)
